@@ -4,17 +4,39 @@
 // ======================================================================================
 
 // [props: C05]
-/// C05 for the v1 byte entry point: every proper prefix of a well-formed (US-ASCII) line is
-/// reported incomplete - the prefix is its own window, it is valid UTF-8, and the line verdict
-/// is the one of the text entry point
+/// C05 for the v1 byte entry point: EVERY proper prefix of a well-formed line is reported incomplete.  A prefix that
+/// is valid UTF-8 is its own window and has the verdict of the text entry point (lemma_c05_v1); a prefix that ends
+/// inside a multi-byte character (UNKNOWN lines may carry any UTF-8 text) is "cut short" - the rest of the line
+/// completes it - has no CR, and its verdict is that of its longest valid prefix, again a proper prefix of the line
 pub proof fn lemma_c05_v1_bytes(l: Seq<u8>, a: V1Addresses, k: int)
-    requires wf_line(l, a), 0 <= k < l.len(), vstd::utf8::valid_utf8(l.subrange(0, k))
+    requires wf_line(l, a), 0 <= k < l.len(), vstd::utf8::valid_utf8(l)
     ensures v1bv_incomplete(entry_verdict_bytes(l.subrange(0, k)))
 {
-    lemma_c05_v1(l, a, k);
     let w = l.subrange(0, k);
-    assert(v1_window(w) =~= w);
-    assert(valid_utf8(v1_window(w))) by { reveal(valid_utf8); };
+    lemma_c05_v1_core(l, a, k);
+    lemma_first_index_bounds(l, 13u8);
+    if vstd::utf8::valid_utf8(w) {
+        assert(valid_utf8(v1_window(w))) by { reveal(valid_utf8); };
+    } else {
+        assert(!valid_utf8(v1_window(w))) by { reveal(valid_utf8); };
+        // the cut is not on a character boundary, so l[k] is not US-ASCII: it is neither the CR nor the LF
+        lemma_utf8_prefix_iff_boundary(l, k);
+        lemma_boundary_ascii(l, k);
+        assert(l[k] >= 128);
+        assert(l[l.len() - 2] == 13u8);
+        assert(k < l.len() - 2);
+        lemma_first_index_prefix(l, k, 13u8);
+        assert(first_index_of(w, 13u8) >= w.len());
+        // cut short: the rest of the line completes it
+        let t = l.subrange(k, l.len() as int);
+        assert(w + t =~= l);
+        assert(valid_utf8(w + t)) by { reveal(valid_utf8); };
+        assert(utf8_truncated(w));
+        lemma_utf8_valid_up_to(w);
+        let v = utf8_valid_up_to(w);
+        assert(w.subrange(0, v) =~= l.subrange(0, v));
+        lemma_c05_v1_core(l, a, v);
+    }
 }
 
 /// a buffer that starts with `P` can only be a terminal error for the v2 parser
@@ -34,7 +56,7 @@ pub proof fn lemma_v2_class_of_p(s: Seq<u8>)
 /// C05 through the auto-detecting parser, v1 headers: the empty prefix is an incomplete v2 result,
 /// any other prefix starts with `P`, is handed to the v1 byte parser and is incomplete there
 pub proof fn lemma_c05_auto_v1(l: Seq<u8>, a: V1Addresses, k: int, r: crate::HeaderResult)
-    requires wf_line(l, a), 0 <= k < l.len(), vstd::utf8::valid_utf8(l.subrange(0, k)), c06_post(l.subrange(0, k), r)
+    requires wf_line(l, a), 0 <= k < l.len(), vstd::utf8::valid_utf8(l), c06_post(l.subrange(0, k), r)
     ensures match r {
         crate::HeaderResult::V1(x) => v1_bin_res_incomplete(x),
         crate::HeaderResult::V2(y) => v2_res_incomplete(y),
@@ -45,7 +67,7 @@ pub proof fn lemma_c05_auto_v1(l: Seq<u8>, a: V1Addresses, k: int, r: crate::Hea
         assert(w =~= v2_sig().subrange(0, 0));
         assert(v2_class(w) == 1);
     } else {
-        lemma_c05_v1(l, a, k);
+        lemma_c05_v1_core(l, a, k);
         assert(w[0] == l[0]);
         lemma_v2_class_of_p(w);
         lemma_c05_v1_bytes(l, a, k);
@@ -122,6 +144,7 @@ pub proof fn lemma_c04_v1_bytes(s: Seq<u8>, t: Seq<u8>)
         entry_verdict_bytes(v1_window(s)) == entry_verdict_bytes(s),
 {
     broadcast use crate::prelude::prelude_str_axioms;
+    lemma_bytes_accept_window(s);
     lemma_window_accept(s);
     let w = v1_window(s);
     let n = w.len() as int;
@@ -144,6 +167,7 @@ pub proof fn lemma_c04_auto_v1(s: Seq<u8>, t: Seq<u8>, r1: crate::HeaderResult, 
 {
     lemma_c06_exclusive(s);
     lemma_c04_v1_bytes(s, t);
+    lemma_bytes_accept_window(s);
     let w = v1_window(s);
     lemma_window_accept(s);
     assert(s[0] == 80u8) by {
